@@ -146,10 +146,10 @@ func fragmentContext(body string) *html.Node {
 	lower := strings.ToLower(trimmed)
 	for _, m := range mappings {
 		if strings.HasPrefix(lower, m.prefix) {
-			// Ensure the prefix is followed by a space, >, or end-of-string
+			// Ensure the prefix is followed by white space, >, / or end-of-string
 			// to avoid false matches (e.g., "<the" matching "<th").
 			rest := lower[len(m.prefix):]
-			if len(rest) == 0 || rest[0] == ' ' || rest[0] == '>' || rest[0] == '\n' || rest[0] == '\t' || rest[0] == '/' {
+			if len(rest) == 0 || rest[0] == ' ' || rest[0] == '>' || rest[0] == '\n' || rest[0] == '\t' || rest[0] == '\r' || rest[0] == '\f' || rest[0] == '/' {
 				return &html.Node{Type: html.ElementNode, DataAtom: m.dataAtom, Data: m.data}
 			}
 		}
